@@ -76,6 +76,10 @@ class MacroVisitor(ExplorerScriptVisitor):
     def visitMacrodef_children(self, macrodef_handler: MacroDefCompileHandler) -> ExplorerScriptMacro:
         """Visit the children of the macro def, after the macro resolution order has been processed"""
         self._root_handler = macrodef_handler
+        # Every macro gets its own source map: the map of a macro must only contain the entries of that macro
+        # (and must not share its lists with the builder that is still written to while other macros are built).
+        self.source_map_builder = SourceMapBuilder()
+        self.compiler_ctx.source_map_builder = self.source_map_builder
         self.visitChildren(macrodef_handler.ctx)
 
         blueprints = self._root_handler.collect()
